@@ -16,4 +16,9 @@ CHECKS["C10"] = {
     "text": "Theorems gate_level (for every integer flag word and verbosity >= 0, _may_write = not quiet and verbosity >= lowest requested level), gate_iff (every text-writing entry point of Output/SectionOutput, decorated or not, emits exactly when the gate with the caller's flags allows), gate_monotone, quiet_silent. The tie is exhaustive: 26 entry points (Output, SectionOutput, IO and IO.section(), standard and error) x 5 formatter/stream kinds x quiet x 4 verbosities x 14 flag words, with the set of public writing methods re-discovered by reflection on every run (an unknown one is a violation).",
     "note": COMMON + "Which gate calls guard each method (Model/Gate.v, path) is a hand transcription validated by the exhaustive tie; a section does not inherit quiet/verbosity from its parent output in the code, the property is read per output object.",
 }
+CHECKS["C07"] = {
+    "technique": "Coq proofs over all integer flag words (land/lor as bit tests, Bits.v) and of the int/bool text round trip (Decimal) + exhaustive differential run over 2^13/2^11 flag words, all short names over an 8-letter alphabet, boundary conversions",
+    "text": "Theorems opt_accept_iff / arg_accept_iff (construction succeeds iff no documented contradiction, names well-formed with or without dash prefix, default fits the value mode), opt_normal_form / arg_normal_form (exactly one type, one name preference, value-less => no value and no default, multi-valued => requires a value and list default, normalisation only adds bits among 0,1,2,3,7), opt_rejects_with_value_error, conv_typed, conv_int_roundtrip (every integer), conv_bool_roundtrip - all for every integer flag word. The tie is exhaustive over all 2^13 option and 2^11 argument flag words x short name x default kind, all names of length <= 4 over an 8-character alphabet as long/short/alias/argument names, and ~230 boundary + seeded random conversion inputs for 4 types x nullable.",
+    "note": COMMON + "Float values and the float text round trip are CPython's (floats are text in the model, compared by value in the harness); int()/float() grammars are modelled for ASCII digits (non-ASCII decimal digits are outside the claimed domain); conversion inputs are None/bool/int/str.",
+}
 NOT_APPLICABLE = {}
